@@ -44,10 +44,10 @@ Definition send (b : bank) (from to : addr) (d amt : Z) : option bank :=
   else let b1 := bset b from d (b from d - amt) in
        Some (bset b1 to d (b1 to d + amt)).
 
-(* every denom an escrow account can hold in the modelled universe: uusdc uatom uelys *)
-Definition all_denoms : list Z := [0; 1; 2].
+(* every denom an escrow account can hold in the modelled universe: uusdc uatom uelys aweth (18 decimals) *)
+Definition all_denoms : list Z := [0; 1; 2; 3].
 
-Definition known_denom (d : Z) : bool := (d =? 0) || (d =? 1) || (d =? 2).
+Definition known_denom (d : Z) : bool := (d =? 0) || (d =? 1) || (d =? 2) || (d =? 3).
 
 (* CancelSpotOrder: GetAllBalances(order address) sent to the owner *)
 Definition move_all (b : bank) (from to : addr) (d : Z) : bank :=
